@@ -115,6 +115,18 @@ def showSets (buf : Bytes) (f : Nat → List Nat) : String :=
 /-- match lengths at offset `o`, through the set evaluator (proved equal to `Re.lens`, Lemmas/ReEval.lean) -/
 def lensAt (fl : Flags) (buf : Bytes) (r : Re) (o : Nat) : List Nat := (r.endsSet fl buf [o]).map (· - o)
 
+/-- whole-pattern function level (h_re wfx=): exhaustive forward lengths from every p, backward lengths from every q -/
+def showWfx (fl : Flags) (buf : Bytes) (r : Re) : String :=
+  let n := buf.size
+  let table : List (Nat × List Nat) := (List.range (n + 1)).map (fun p => (p, r.endsSet fl buf [p]))
+  let fw := table.foldl (fun acc (p, es) =>
+    let ls := sortNat ((es.map (· - p)).eraseDups)
+    if ls.isEmpty then acc else acc ++ "|f" ++ toString p ++ ":" ++ ",".intercalate (ls.map toString)) ""
+  let bw := (List.range (n + 1)).foldl (fun acc q =>
+    let ls := sortNat ((table.filterMap (fun (p, es) => if es.contains q then some (q - p) else none)).eraseDups)
+    if ls.isEmpty then acc else acc ++ "|b" ++ toString q ++ ":" ++ ",".intercalate (ls.map toString)) ""
+  fw ++ bw
+
 def handle (line : String) : String :=
   match Driver.toks line with
   | [] => ""
@@ -145,6 +157,10 @@ def handle (line : String) : String :=
             let buf : Bytes := bs.toArray
             let fw := has 'f'
             let wideFl : Flags := { base with wide := true }
+            if (field ts "wfx").isSome then
+              let parts := (if has 'a' then ["a" ++ showWfx base buf r] else []) ++ (if has 'w' then ["w" ++ showWfx wideFl buf r] else [])
+              id ++ " W " ++ (if parts.isEmpty then "-" else ";".intercalate parts)
+            else
             let a := if has 'a' then " a=" ++ showSets buf (fun o => lensAt base buf r o) else ""
             let w := if has 'w' then " w=" ++ showSets buf (fun o => lensAt wideFl buf r o) else ""
             let af := if fw && has 'a' then
